@@ -58,7 +58,7 @@ def table(draw, need=()):
             elif c == "val":
                 row[c] = draw(st.sampled_from(["1", "2", "3", "10"]))
             else:
-                row[c] = draw(st.sampled_from(["x", "y", "n/a"]))
+                row[c] = draw(st.sampled_from(["x", "y", "n/a", "x", "y", "n/a", "NA", "None", "nan"]))   # text, not missing
         rows.append(row)
     # consecutive duplicates make merge_consecutive interesting
     if rows and draw(st.booleans()):
@@ -122,7 +122,8 @@ def operation(draw):
             if key not in keys:
                 keys.append(key)
         p = {"source_columns": src, "destination_columns": dst,
-             "map_list": [k + [f"m{i}{j}" for j in range(len(dst))] for i, k in enumerate(keys)],
+             "map_list": [k + [draw(st.sampled_from([f"m{i}{j}", f"m{i}{j}", f"it's m{i}{j}", f'"m{i}{j}"']))
+                               for j in range(len(dst))] for i, k in enumerate(keys)],
              "ignore_missing": draw(st.booleans())}
         if src == ["val"]:
             p["integer_sources"] = ["val"]
@@ -516,6 +517,26 @@ def oracle_run(case):
                 out.bad("result-depends-on-processing-history:" + "+".join(sorted({o["operation"] for o in ops})),
                         f"table {ti} processed again at step {step} of order {case['order']} differs: ops "
                         f"{json.dumps(ops)}\n{case['tables'][ti]['text']}")
+    # the same table given as a file name instead of a DataFrame: same result
+    if results.get(0, ("",))[0] == "ok":
+        import os
+        import tempfile
+        fd, path = tempfile.mkstemp(suffix="_events.tsv", dir=os.environ.get("HOME"))
+        try:
+            with os.fdopen(fd, "w", encoding="utf-8", newline="") as fp:
+                fp.write(case["tables"][0]["text"])
+            try:
+                from_file = disp.run_operations(path)
+                if not frame_same(frame_snapshot(results[0][1]), from_file):
+                    out.bad("result-depends-on-input-form:" + "+".join(sorted({o["operation"] for o in ops})),
+                            f"file form differs from DataFrame form: ops {json.dumps(ops)}\n{case['tables'][0]['text']}"
+                            f"\nfile: {from_file.astype(str).values.tolist()[:4]}\nframe: "
+                            f"{results[0][1].astype(str).values.tolist()[:4]}")
+            except Exception as exc:  # noqa
+                out.bad(f"file-form-raises:{type(exc).__name__}", f"{exc!r}: ops {json.dumps(ops)}\n"
+                                                                  f"{case['tables'][0]['text']}")
+        finally:
+            os.unlink(path)
     # reference + runs-to-completion
     for ti, sig in results.items():
         cols, rows = frame_to_rows(frames[ti])
